@@ -60,7 +60,7 @@ EXPECT = {
     "Empty.parseImpl": "5702f5ff770e9251",
     "_SingleCharLiteral.parseImpl": "2ae4d547e021d4fe",
     "srange": "905c4a33f53ba576",
-    "one_of": "12ae9ff9785da8de",
+    "one_of": "28829877b8a85dee",
     "_escape_regex_range_chars": "ed777546506cf86a",
     "_collapse_string_to_ranges": "971c5a9187c3dc0f",
     "_GroupConsecutive.__call__": "8acb794b102655da",
